@@ -113,7 +113,7 @@ PROPS = {
         "claim": "Decides NX1–NX5, which give the whole statement with exhaustion as a precondition: the allocator position is written only in next_id(); the returned id is the key of a vertex-store item selected by a predicate true only for tag ∈ {0} and key ≥ the pre-state position; every path sets position := id + 1 unless it is already larger; clone copies the position (CL1); merge's descent adds the fresh id on the same paths and a script allocates only as the default of vars.entry(name).",
         "note": "Trusted: rustc front end + engine; emap iteration yields exactly the Some slots with their keys. Exhaustion (no absent id at or above the position) is a precondition.",
         "technique": "MIR who-may-write + closure-predicate summary + must-pass-through rules",
-        "rules": [("NX1", NX.nx1), ("NX2/NX3", NX.nx23), ("NX4", NX.cl1), ("NX5", NX.nx5), ("SC5", SC.sc5)],
+        "rules": [("NX1", NX.nx1), ("NX2/NX3", NX.nx23), ("NX4", NX.cl1), ("NX5", NX.nx5), ("SC5", SC.sc5), ("MG3-6", MG.mg3456)],
         "explanation": "NX1 who writes next_v, NX2 predicate (absent ∧ ≥ pre-state position), NX3 position := id+1, NX4 clone copies the position, NX5 internal callers.",
         "trusted": [RUSTC, CONTAINERS],
         "assumptions": ["at least one absent id at or above the allocator position remains"],
@@ -204,7 +204,7 @@ PROPS = {
         "claim": "Decides ND1–ND3, which remove every source of run-to-run or size dependence: values produced by iterating a std hash container, and loop bodies driven by them, reach only order-insensitive uses (set/map insert, contains, len, reads, the user predicate) unless sorted first — never a graph mutator, next_id or an unsorted returned sequence/string; time/random/environment sources feed logging only and no pointer is turned into a number; the const parameter N never occurs as a value and capacity() flows only into Sodg::empty, a diverging bound check or logging. Does not decide equality of whole traces across configurations as such.",
         "note": "Trusted: rustc front end + engine; micromap iteration is insertion-ordered and emap iteration ascending (deterministic), as read.",
         "technique": "MIR taint analysis (hash-iteration order, time, size parameters) with sort as sanitiser",
-        "rules": [("ND1", SL.nd1), ("ND2", SL.nd2), ("ND3", SL.nd3)],
+        "rules": [("ND1", SL.nd1), ("ND2", SL.nd2), ("ND3", SL.nd3), ("SZ3-5", functools.partial(SZ.sz345, roundtrip=False))],
         "explanation": "ND1 hash-order taint (floor 3 sources), ND2 other nondeterminism sources, ND3 N / capacity only as bounds.",
         "trusted": [RUSTC, CONTAINERS],
         "assumptions": ["sequences that fit within the limits of both configurations"],
